@@ -3,6 +3,7 @@
 
 #include "Fastor/simd_vector/simd_vector_base.h"
 #include <cstdint>
+#include <cstring>
 
 namespace Fastor {
 
@@ -197,7 +198,7 @@ struct SIMDVector<int64_t,simd_abi::avx512> {
     }
 
     FASTOR_INLINE int64_t minimum() {
-        const int64_t *vals = reinterpret_cast<const int64_t*>(&value);
+        int64_t vals[Size]; std::memcpy(vals, &value, sizeof(value));
         int64_t quan = vals[0];
         for (FASTOR_INDEX i=0; i<Size; ++i)
             if (vals[i]<quan)
@@ -205,7 +206,7 @@ struct SIMDVector<int64_t,simd_abi::avx512> {
         return quan;
     }
     FASTOR_INLINE int64_t maximum() {
-        const int64_t *vals = reinterpret_cast<const int64_t*>(&value);
+        int64_t vals[Size]; std::memcpy(vals, &value, sizeof(value));
         int64_t quan = vals[0];
         for (FASTOR_INDEX i=0; i<Size; ++i)
             if (vals[i]>quan)
@@ -543,7 +544,7 @@ struct SIMDVector<int64_t,simd_abi::avx> {
     }
 
     FASTOR_INLINE int64_t minimum() {
-        const int64_t *vals = reinterpret_cast<const int64_t*>(&value);
+        int64_t vals[Size]; std::memcpy(vals, &value, sizeof(value));
         int64_t quan = vals[0];
         for (FASTOR_INDEX i=0; i<Size; ++i)
             if (vals[i]<quan)
@@ -551,7 +552,7 @@ struct SIMDVector<int64_t,simd_abi::avx> {
         return quan;
     }
     FASTOR_INLINE int64_t maximum() {
-        const int64_t *vals = reinterpret_cast<const int64_t*>(&value);
+        int64_t vals[Size]; std::memcpy(vals, &value, sizeof(value));
         int64_t quan = vals[0];
         for (FASTOR_INDEX i=0; i<Size; ++i)
             if (vals[i]>quan)
@@ -859,7 +860,7 @@ struct SIMDVector<int64_t,simd_abi::sse> {
     }
 
     FASTOR_INLINE int64_t minimum() {
-        const int64_t *vals = reinterpret_cast<const int64_t*>(&value);
+        int64_t vals[Size]; std::memcpy(vals, &value, sizeof(value));
         int64_t quan = vals[0];
         for (FASTOR_INDEX i=0; i<Size; ++i)
             if (vals[i]<quan)
@@ -867,7 +868,7 @@ struct SIMDVector<int64_t,simd_abi::sse> {
         return static_cast<int64_t>(quan);
     }
     FASTOR_INLINE int64_t maximum() {
-        const int64_t *vals = reinterpret_cast<const int64_t*>(&value);
+        int64_t vals[Size]; std::memcpy(vals, &value, sizeof(value));
         int64_t quan = vals[0];
         for (FASTOR_INDEX i=0; i<Size; ++i)
             if (vals[i]>quan)
